@@ -801,3 +801,114 @@ func c13tombstoneRegistry(c *an.Ctx) {
 	})
 	r.AddSites(n)
 }
+
+func init() {
+	old := All["C13"].Run
+	All["C13"].Run = func(c *an.Ctx) {
+		old(c)
+		c13dropCoversEveryPolicy(c)
+	}
+	All["C13"].Rules += " R11"
+	addLevel("C13", "DROP MEASUREMENT without a policy sends the mark command for every retention policy that holds the measurement and is not marked yet (the loop over the policies is left early only with an error).")
+}
+
+// c13dropCoversEveryPolicy — C13.R11.  `DROP MEASUREMENT m` carries no policy: the measurement is
+// marked in EVERY retention policy of the database that has it.  The loop may skip a policy
+// (measurement absent, already marked) but may leave early only by failing.
+func c13dropCoversEveryPolicy(c *an.Ctx) {
+	const MC = "lib/metaclient"
+	r := c.Rule("C13.R11", "K-LOOPSELECT", MC+":(*Client).deleteAllRpMst — every policy that holds the measurement is sent the mark command, or the statement fails")
+	f := fn(r, MC+":Client.deleteAllRpMst")
+	if f == nil {
+		return
+	}
+	var loop *ast.RangeStmt
+	ast.Inspect(f.Body, func(m ast.Node) bool {
+		if rs, ok := m.(*ast.RangeStmt); ok && loop == nil && strings.HasSuffix(f.Canon(rs.X), ".RetentionPolicies") {
+			loop = rs
+		}
+		return true
+	})
+	if loop == nil {
+		r.Fail(f.Name+": no loop", c.P.Pos(f.Body.Pos()), "deleteAllRpMst no longer walks the retention policies of the database")
+		return
+	}
+	errT := types.Universe.Lookup("error").Type()
+	// the guard `x != nil` (x an error) that encloses n inside the loop, if any
+	failGuard := func(n ast.Node) bool {
+		for p := f.Parent(n); p != nil && p != ast.Node(loop); p = f.Parent(p) {
+			is, ok := p.(*ast.IfStmt)
+			if !ok {
+				continue
+			}
+			be, ok := ast.Unparen(is.Cond).(*ast.BinaryExpr)
+			if !ok || be.Op.String() != "!=" {
+				continue
+			}
+			if t := f.Info.TypeOf(be.X); t != nil && types.Identical(t, errT) && an.IsNilIdent(f.Info, be.Y) {
+				// n must be in the then-branch
+				for q := n; q != nil && q != ast.Node(is); q = f.Parent(q) {
+					if q == ast.Node(is.Body) {
+						return true
+					}
+				}
+			}
+		}
+		return false
+	}
+	n := 0
+	var walk func(nd ast.Node, depth int)
+	walk = func(nd ast.Node, depth int) {
+		ast.Inspect(nd, func(k ast.Node) bool {
+			switch y := k.(type) {
+			case *ast.FuncLit:
+				return false
+			case *ast.ForStmt, *ast.RangeStmt, *ast.SwitchStmt, *ast.TypeSwitchStmt, *ast.SelectStmt:
+				if k != nd {
+					walk(k, depth+1)
+					return false
+				}
+			case *ast.ReturnStmt:
+				n++
+				if !failGuard(y) {
+					r.Fail(f.Name+": acknowledged before every policy was examined", c.P.Pos(y.Pos()), "deleteAllRpMst returns from inside the loop over the retention policies without an error being known (line %d): the remaining policies keep the measurement although DROP MEASUREMENT is acknowledged", c.P.Fset.Position(y.Pos()).Line)
+				}
+			case *ast.BranchStmt:
+				if y.Tok.String() == "break" && (depth == 0 || y.Label != nil) {
+					n++
+					if !failGuard(y) {
+						r.Fail(f.Name+": loop left early", c.P.Pos(y.Pos()), "deleteAllRpMst breaks out of the loop over the retention policies without an error being known")
+					}
+				}
+			}
+			return true
+		})
+	}
+	walk(loop.Body, 0)
+	r.AddSites(n + 1)
+}
+
+func init() {
+	old := All["C13"].Run
+	All["C13"].Run = func(c *an.Ctx) {
+		old(c)
+		c13tombstonesAlwaysAttached(c)
+	}
+	All["C13"].Rules += " R12"
+	addLevel("C13", "at start-up the tombstone index of a retention policy is attached to the policy's series indexes whenever it was created successfully (not only when a tombstone directory was found): a later DROP SERIES writes into it, and reads consult only attached tombstones.")
+}
+
+// c13tombstonesAlwaysAttached — C13.R12.
+func c13tombstonesAlwaysAttached(c *an.Ctx) {
+	const E = "engine"
+	r := c.Rule("C13.R12", "K-ORDER(pairing)", E+":(*DBPTInfo).OpenIndexes — NewMergeSetIndex(success) ⇒ SetDelMergeSetForEachMergeSet on every way out")
+	f := fn(r, E+":DBPTInfo.OpenIndexes")
+	if f == nil {
+		return
+	}
+	mk := f.Find(call(r, E+":DBPTInfo.NewMergeSetIndex"))
+	at := f.Find(call(r, E+":SetDelMergeSetForEachMergeSet"))
+	if !r.Failed() {
+		f.FollowedByOnSuccess(r, mk, at, nil, "tombstone index created ⇒ attached to the series indexes of the policy")
+	}
+}
